@@ -83,6 +83,10 @@ DecodeOK(e) ==
 \* makes into the library, it returns what it returns later, and what the per-component
 \* functions give for the same values; it does not panic.
 FirstUseOK(e) == ~e.panic /\ e.first = e.again /\ e.first = e.ref /\ Len(e.first) > 0
+\* the CONTENT of the lazily built tables does not depend on what the process did before they were
+\* built: digests of all 65,536 entries of each table, one per process history, are equal
+TableHashOK(e) == /\ Len(e.enc) > 1 /\ \A i \in 1..Len(e.enc) : e.enc[i] = e.enc[1]
+                  /\ Len(e.dec) = Len(e.enc) /\ \A i \in 1..Len(e.dec) : e.dec[i] = e.dec[1]
 
 \* LineariseColor re-quantises to 16 bits: out/65535 within 3e-7 + half a 16-bit code
 HalfCode16 == <<349, 948, 510, 629, 7>>          \* ceil(10^18 / 131070) = 7629510948349
